@@ -68,6 +68,9 @@ ViewBad(e, T) ==
   \/ e.oview.ag # XOf(T, "agents")
   \/ SeqToSet(e.oview.keys) # {"ag", "g", "out"}
   \/ e.oview.out # <<>>
+  \* a plain port wired into compartment agents/a: its variable is seen while
+  \* the compartment exists and no longer once it has been deleted or moved away
+  \/ (e.watch /\ e.wview # (IF Has(T, "agents", "a") THEN [x |-> T["agents"]["a"].x] ELSE <<>>))
 
 InitTree(ini) ==
   LET T0 == [b \in Branches |->
